@@ -144,8 +144,7 @@ jcmd_jwk_thp(int argc, char *argv[])
         const json_t *jwk = json_array_get(opt.keys, i);
 
         for (const jose_hook_alg_t *a = jose_hook_alg_list(); a; a = a->next) {
-            uint8_t dec[dlen];
-            char enc[elen];
+            const char *hash = opt.find ? a->name : opt.hash;
 
             if (a->kind != JOSE_HOOK_ALG_KIND_HASH)
                 continue;
@@ -153,7 +152,18 @@ jcmd_jwk_thp(int argc, char *argv[])
             if (!opt.find && strcmp(opt.hash, a->name) != 0)
                 continue;
 
-            if (!jose_jwk_thp_buf(NULL, jwk, opt.hash, dec, sizeof(dec))) {
+            dlen = jose_jwk_thp_buf(NULL, NULL, hash, NULL, 0);
+            if (dlen == SIZE_MAX)
+                return EXIT_FAILURE;
+
+            elen = jose_b64_enc_buf(NULL, dlen, NULL, 0);
+            if (elen == SIZE_MAX)
+                return EXIT_FAILURE;
+
+            uint8_t dec[dlen];
+            char enc[elen];
+
+            if (jose_jwk_thp_buf(NULL, jwk, hash, dec, sizeof(dec)) != dlen) {
                 fprintf(stderr, "Error making thumbprint!\n");
                 return EXIT_FAILURE;
             }
